@@ -166,7 +166,7 @@ func predictedSlots(in *input) int64 {
 	return int64(tot)
 }
 
-const maxSlots = 1500
+const maxSlots = 320
 
 func safeToRun(in *input) bool {
 	if in.K != 0 && int(in.K) <= len(in.Peers) {
@@ -493,10 +493,13 @@ func genStake(c *hx.Ctx, style int, base uint64) uint64 {
 func genInput(c *hx.Ctx) (*input, string) {
 	in := &input{}
 	n := 1 + c.Intn(9)
+	if n < 3 && c.Intn(3) != 0 {
+		n += 3
+	}
 	if c.Intn(12) == 0 {
 		n = 10 + c.Intn(12)
 	}
-	keyStyle := c.Intn(4)
+	keyStyle := []int{0, 1, 1, 2, 2, 3, 3, 1}[c.Intn(8)]
 	stakeStyle := c.Intn(8)
 	base := []uint64{1, 7, 1000, 1 << 40}[c.Intn(4)]
 	seenK, seenI := map[string]bool{}, map[uint32]bool{}
@@ -549,12 +552,18 @@ func genInput(c *hx.Ctx) (*input, string) {
 		if c.Intn(3) == 0 {
 			in.K = uint32(n)
 		}
+		if in.K < 3 && n >= 3 && c.Intn(8) != 0 {
+			in.K = uint32(3 + c.Intn(n-2))
+		}
 		maxC := (in.K - 1) / 2
 		in.C = maxC
 		if maxC > 0 && c.Intn(3) == 0 {
 			in.C = 1 + uint32(c.Intn(int(maxC)))
 		}
-		in.L = in.K * uint32(2+c.Intn(15))
+		in.L = in.K * uint32(2+c.Intn(5))
+		if c.Intn(5) == 0 {
+			in.L = in.K * uint32(2+c.Intn(24))
+		}
 		kind += "/params-valid"
 	}
 	in.BlockDelay, in.HashDelay, in.Handshake, in.MaxView = uint32(c.U64Boundary()), uint32(c.U64Boundary()), uint32(c.U64Boundary()), uint32(c.U64Boundary())
@@ -644,12 +653,12 @@ func Run(c *hx.Ctx) {
 	for _, in := range fixedInputs() {
 		doCase(c, in, "fixed")
 	}
-	n := c.N(260, 3000)
+	n := c.N(170, 2500)
 	for i := 0; i < n; i++ {
 		in, kind := genInput(c)
 		doCase(c, in, kind)
 		// one permuted variant also goes to the model
-		if c.Intn(3) == 0 && len(in.Peers) > 1 && safeToRun(in) {
+		if c.Intn(4) == 0 && len(in.Peers) > 1 && safeToRun(in) {
 			in2 := *in
 			in2.Peers = append([]peerIn{}, in.Peers...)
 			c.Rng.Shuffle(len(in2.Peers), func(i, j int) { in2.Peers[i], in2.Peers[j] = in2.Peers[j], in2.Peers[i] })
@@ -661,6 +670,6 @@ func Run(c *hx.Ctx) {
 			}
 		}
 	}
-	hashCases(c, c.N(300, 3000))
-	floatCases(c, c.N(300, 3000))
+	hashCases(c, c.N(200, 3000))
+	floatCases(c, c.N(240, 3000))
 }
